@@ -77,7 +77,8 @@ FIELDS = ["name", "grid_n", "n_mazes", "maze_ctor", "maze_ctor_kwargs", "endpoin
 
 def _fail(res, key, what, inp=None, observed=None):
     if sum(1 for f in res.failures if f["key"] == key) < PER_KEY:
-        res.fail(key, what, inp, observed)
+        # the key travels with the input so that replay() judges exactly this failure and not another one on the same input
+        res.fail(key, what, dict(inp, failed_key=key) if isinstance(inp, dict) else inp, observed)
 
 
 def want_endpoint(ek):
@@ -521,11 +522,16 @@ def replay(check, inp):
             res.fail(f"C18:eq:blind:{inp['field']}", "compare equal", inp, None)
     elif "other" in inp:
         if make(inp["spec"]).stable_hash_cfg() == make(inp["other"]).stable_hash_cfg():
-            res.fail("C18:hash:collision", "same hash", inp, None)
+            res.fail(inp.get("failed_key", "C18:hash:collision"), "same hash", inp, None)
     else:
         check_config(res, inp["spec"], count=False)
-    for f in res.failures:
+    want = inp.get("failed_key") if isinstance(inp, dict) else None
+    mine = [f for f in res.failures if want is None or f["key"] == want]
+    for f in mine:
         print("  still failing:", f["key"], f["what"])
+    for f in res.failures:
+        if f not in mine:
+            print("  (another check fails on this input:", f["key"] + ")")
     for e in res.errors:
         print("  replay error:", e)
-    return not res.failures and not res.errors
+    return not mine and not res.errors
